@@ -166,6 +166,15 @@ theorem retry_foreign_not_retried (script : Nat → Outc) (attempts : Int) (k e 
 theorem retry_source_shape :
     handlerIsExceptionsParam = true ∧ sleepElsewhere = false ∧ forwardsArgsUnchanged = true := by decide
 
+/-- the handler needs nothing from the callable but the call itself, and waits the caller's `sleep_time` -/
+theorem cfg_handler : handlerNeedsName = false ∧ sleepArgIsSleepTime = true := by decide
+
+/-- **C15 for every kind of callable** - functions, lambdas, bound methods (`named`) as well as `functools.partial` objects and
+    instances with `__call__` (no `__name__`): the contract holds (before ccd8bc6 the handler read `func.__name__` and a callable
+    without it ended the run with an AttributeError after the first listed failure) -/
+theorem retryFor_spec (named : Bool) (script : Nat → Outc) (attempts : Int) : retryFor named script attempts = spec script attempts := by
+  simp [retryFor, cfg_handler, retry_spec]
+
 -- non-vacuity: concrete runs
 example : retry (fun i => if i < 2 then .listed i else .ret 42) 5
     = ⟨[.call 0, .sleep, .call 1, .sleep, .call 2], .ret 42⟩ := by decide
